@@ -49,10 +49,10 @@ type scenCfg struct {
 	ALPNs       []string `json:"alpnS"`
 	CurvesC     []int    `json:"curvesC"`
 	CurvesS     []int    `json:"curvesS"`
-	Resume      bool     `json:"resume"` // both session stores pre-populated with the same session
-	Stores      bool     `json:"stores"` // session stores present (empty unless Resume)
+	Resume      bool     `json:"resume"`   // both session stores pre-populated with the same session
+	Stores      bool     `json:"stores"`   // session stores present (empty unless Resume)
 	LeafOnly    bool     `json:"leafOnly"` // certificate messages carry the leaf only (the verifier builds the rest of the chain from its pool)
-	StaleC      bool     `json:"staleC"` // stores present, only the CLIENT's holds a session: it offers an id the server does not know
+	StaleC      bool     `json:"staleC"`   // stores present, only the CLIENT's holds a session: it offers an id the server does not know
 	Window      int      `json:"window"`
 	IntervalMS  int      `json:"intervalMs"` // 0 => virtual timers only (1h real interval)
 	NoBackoff   bool     `json:"noBackoff"`
